@@ -3,4 +3,5 @@ From PV Require Import Lib.Bytes Model.Lines Model.PatchSum Spec.PatchSumSpec.
 (* oracle/common.ml needs the type z in scope *)
 Definition lineno_z18 (l : line) : Z := Z.of_N (lineno l).
 Extraction "C18_model.ml" lineno_z18 convert_to_logical_lines hashed_bytes check_patch_sha1
-  fix_distinfo_line autofix_replace makepatchsum_filter.
+  fix_distinfo_line autofix_replace makepatchsum_filter
+  cvs_handle cvs_log_line load_cvs_entries is_committed check_uncommitted_patch check_entry_cvs distinfo_name sha1_name.
